@@ -40,9 +40,12 @@ func scenario(bodies []string, life string, bounds []int) *vexp.Scenario {
 			w := vsys.NewWorld(x, opts...)
 			w.Quiet = true
 			w.Start()
+			askAddr := "" // the reply address of the Ask that is left pending (what ctx.Sender() showed its recipient)
 			replier := func(a *vsys.Act, ctx vivid.ActorContext, m any) {
 				if r, ok := m.(req); ok && r.ID != "silent" {
 					ctx.Reply(ev{ID: "re:" + r.ID})
+				} else if ok && ctx.Sender() != nil {
+					askAddr = ctx.Sender().GetAddress() + ctx.Sender().GetPath()
 				}
 			}
 			boom := func(a *vsys.Act, ctx vivid.ActorContext, m vsys.Msg) {
@@ -77,6 +80,10 @@ func scenario(bodies []string, life string, bounds []int) *vexp.Scenario {
 			refA, refK, refF := w.Ref("/a"), w.Ref("/k"), w.Ref("/f")
 			shared := w.Ref("/a") // a reference object shared by several threads
 			silent := sys.Ask(refA, req{ID: "silent"}, 2*time.Second)
+			vrt.QuiesceNoTimers()
+			// a forwarders list shared by every thread that pipes: the same actor under three reference objects, then another actor
+			sharedFwd := vivid.ActorRefs{refF, refF.Clone(), w.Ref("/f"), refK}
+			sharedFwdWas := fmt.Sprint(sharedFwd)
 			dupWinners := 0
 			run := func(ti int, b string) {
 				switch b {
@@ -111,6 +118,12 @@ func scenario(bodies []string, life string, bounds []int) *vexp.Scenario {
 					sys.FindActor("localhost/a")
 					sys.FindActor("localhost/k")
 					sys.ParseRef("localhost/f")
+					if askAddr != "" {
+						// a path that IS in the registry but is not an actor: the reply address of an Ask in flight
+						if r, err := sys.FindActor(askAddr); err == nil {
+							x.Logf("FindActor(%s) = %v", askAddr, r)
+						}
+					}
 				case "es":
 					sys.EventStream().Subscribe(sys, ev{})
 					sys.EventStream().Publish(sys, ev{ID: "e"})
@@ -118,6 +131,7 @@ func scenario(bodies []string, life string, bounds []int) *vexp.Scenario {
 				case "fut":
 					silent.PipeTo(vivid.ActorRefs{refF})
 					silent.Close(nil)
+					silent.PipeTo(sharedFwd) // after completion too, with the list other threads use as well
 				case "ref":
 					c := shared.Clone()
 					_ = c.Equals(shared)
@@ -143,6 +157,9 @@ func scenario(bodies []string, life string, bounds []int) *vexp.Scenario {
 				if floodSeen != flooded {
 					x.Fail("no-message-lost-under-concurrent-senders", "%d messages were sent to /h by concurrent threads while it was busy, it processed %d of them", flooded, floodSeen)
 				}
+			}
+			if got := fmt.Sprint(sharedFwd); got != sharedFwdWas {
+				x.Fail("arguments-untouched", "the forwarders list handed to Future.PipeTo was %s before and is %s afterwards: the caller's slice was written", sharedFwdWas, got)
 			}
 			if strings.Contains(strings.Join(bodies, "|"), "spawn-same") {
 				if dupWinners != 1 {
